@@ -9,21 +9,9 @@ Driver glue for C03.  Ops:
   state                         -> abstract state
   spec-once <t:s ...> | <t:s ...>     spec-prefix ... | ...     spec-stuck <0|1> <n> <0|1>
 
-Glue-level extension (NOT part of CV.Model.Wake, not covered by the theorems of CV.Props.C03; it is
-replay-validated against the implementation like the model, and it only ever touches `lockL`, `tl`,
-`hset` of the model state while the model's loop pc rests at `setH`):
-a generate_events handler WITHOUT `resume` that runs in the loop thread before the waiter and lowers the
-time left to a positive value (circuits.core.timers.Timer._on_generate_events, any handler of higher
-priority than the waiter's):
-    event.handler = event_handler                 hsetWnoResume     (model pc `setH`, stays there)
-    event.reduce_time_left(T)   with T > 0
-        with self._lock:                          lAcq              (enabled only when the lock is free)
-            if ... self._time_left < 0 or self._time_left > T:
-                self._time_left = T               tlwOther          (only from a non-zero time left: reduce only)
-                                                  lRel
-After the `lRel` the model continues at `setH` (next handler: another such handler or the waiter, `hsetW`),
-now with `tl = pos`, i.e. into the positive-time-out branch of the waiter (`posArg`, `waitPos`, `pSel`
-with `tmo = pos`) which IS part of the model.
+The acceptor is `CV.Wake.step` alone: every effect label of the implementation (the Timer handler's
+`hsetWnoResume`, `lAcq`, `tlwOther`, `lRel` included) is parsed into a `CV.Wake.Lab` and offered to the model;
+this file holds no protocol logic of its own (parsing, printing, the spec ops).
 -/
 namespace CV.Drv
 open CV.Wake
@@ -33,15 +21,6 @@ def tlOf : String → Option TL | "neg" => some .neg | "zero" => some .zero | "p
 def hkStr : HK → String | .none => "none" | .other => "other" | .ge => "ge"
 def hkOf : String → Option HK | "none" => some .none | "other" => some .other | "ge" => some .ge | _ => none
 def boolOf : String → Option Bool | "1" => some true | "0" => some false | _ => none
-
-/-- program counter of the glue-level "timer" handler (see the header) -/
-inductive TPc | idle | acq | chk | rel deriving DecidableEq, Repr
-
-structure DSt where
-  s : St
-  tpc : TPc
-
-def tpcStr : TPc → String | .idle => "idle" | .acq => "acq" | .chk => "chk" | .rel => "rel"
 
 def lpcStr (p : LPc) : String := (reprStr p).replace "CV.Wake.LPc." ""
 def fpcStr (p : FPc) : String := (reprStr p).replace "CV.Wake.FPc." ""
@@ -69,6 +48,8 @@ def parseLab : List String → Option Lab
   | ["tlwZero"] => some .tlwZero
   | ["lHsetR", b] => do some (.lHsetR (← boolOf b))
   | ["hsetW"] => some .hsetW
+  | ["hsetWnoResume"] => some .hsetWnoResume
+  | ["tlwOther"] => some .tlwOther
   | ["clr"] => some .clr
   | ["tlr", t] => do some (.tlr (← tlOf t))
   | ["wake"] => some .wake
@@ -96,63 +77,32 @@ def parseKey (s : String) : Option (Nat × Nat) :=
 def splitBarWk (ts : List String) : List String × List String :=
   (ts.takeWhile (· ≠ "|"), (ts.dropWhile (· ≠ "|")).drop 1)
 
-def dAbs (d : DSt) : String :=
-  absState d.s ++ (if d.tpc = .idle then "" else s!" tpc={tpcStr d.tpc}")
-
-/-- the glue-level timer handler: `some (some d')` performed, `some none` rejected, `none` not a timer step -/
-def timerStep (d : DSt) : List String → Option (Option DSt)
-  | ["hsetWnoResume"] =>
-    if d.s.lpc = .setH ∧ d.tpc = .idle then some (some { s := { d.s with hset := false }, tpc := .acq })
-    else some none
-  | ["tlwOther"] =>
-    if d.tpc = .chk ∧ d.s.lockL = true ∧ d.s.tl ≠ .zero then
-      some (some { s := { d.s with tl := .pos }, tpc := .rel })
-    else some none
-  | ["lAcq"] =>
-    if d.tpc = .acq then
-      if d.s.lockL = false ∧ d.s.cs = none then some (some { s := { d.s with lockL := true }, tpc := .chk })
-      else some none
-    else if d.tpc = .idle then none else some none
-  | ["lRel"] =>
-    if d.tpc = .rel ∨ (d.tpc = .chk ∧ d.s.tl ≠ .neg) then
-      if d.s.lockL = true then some (some { s := { d.s with lockL := false }, tpc := .idle }) else some none
-    else if d.tpc = .idle then none else some none
-  | ts =>
-    if d.tpc = .idle then none
-    else match parseLab ts with
-      | some l => if l.isFirer then none else some none   -- the loop thread is inside the timer handler
-      | none => none
-
-def wakeStep (d : DSt) : List String → DSt × String
-  | ["mode", "fallback"] => (⟨init .fallback, .idle⟩, "ok " ++ absState (init .fallback))
-  | ["mode", "poller"] => (⟨init .poller, .idle⟩, "ok " ++ absState (init .poller))
-  | ["state"] => (d, dAbs d)
+def wakeStep (s : St) : List String → St × String
+  | ["mode", "fallback"] => (init .fallback, "ok " ++ absState (init .fallback))
+  | ["mode", "poller"] => (init .poller, "ok " ++ absState (init .poller))
+  | ["state"] => (s, absState s)
   | "spec-once" :: rest =>
     let (a, b) := splitBarWk rest
     match a.mapM parseKey, b.mapM parseKey with
-    | some f, some g => (d, if WakeSpec.onceFifo f g then "ok" else "fail once-fifo")
-    | _, _ => (d, "bad-op")
+    | some f, some g => (s, if WakeSpec.onceFifo f g then "ok" else "fail once-fifo")
+    | _, _ => (s, "bad-op")
   | "spec-prefix" :: rest =>
     let (a, b) := splitBarWk rest
     match a.mapM parseKey, b.mapM parseKey with
-    | some f, some g => (d, if WakeSpec.prefixFifo f g then "ok" else "fail prefix-fifo")
-    | _, _ => (d, "bad-op")
+    | some f, some g => (s, if WakeSpec.prefixFifo f g then "ok" else "fail prefix-fifo")
+    | _, _ => (s, "bad-op")
   | ["spec-stuck", b, q, e] =>
     match boolOf b, q.toNat?, boolOf e with
-    | some b, some q, some e => (d, if WakeSpec.notStuck b q e then "ok" else "fail stuck")
-    | _, _, _ => (d, "bad-op")
+    | some b, some q, some e => (s, if WakeSpec.notStuck b q e then "ok" else "fail stuck")
+    | _, _, _ => (s, "bad-op")
   | ts =>
-    match timerStep d ts with
-    | some (some d') => (d', "ok " ++ dAbs d')
-    | some none => (d, "reject " ++ dAbs d)
-    | none =>
-      match parseLab ts with
-      | some l =>
-        match step d.s l with
-        | some s' => ({ d with s := s' }, "ok " ++ dAbs { d with s := s' })
-        | none => (d, "reject " ++ dAbs d)
-      | none => (d, "bad-op")
+    match parseLab ts with
+    | some l =>
+      match step s l with
+      | some s' => (s', "ok " ++ absState s')
+      | none => (s, "reject " ++ absState s)
+    | none => (s, "bad-op")
 
-def wakeMachine : Machine := ⟨DSt, ⟨init .fallback, .idle⟩, wakeStep⟩
+def wakeMachine : Machine := ⟨St, init .fallback, wakeStep⟩
 
 end CV.Drv
